@@ -461,8 +461,16 @@ func (te *taintEngine) transferFunc(fn *ssa.Function) {
 					switch a := x.X.(type) {
 					case *ssa.FieldAddr:
 						if fk, ok := structFieldKey(a.X, a.Field); ok {
+							// the text of a YAML scalar, however it is accessed: every read of yaml.Node.Value is a source
+							if fk.field == "Value" && fk.typ == "Node" {
+								if nt := namedOf(a.X.Type()); nt != nil && objPkgPath(nt.Obj()) == yamlPath {
+									te.setVal(x, mk("yaml-scalar"))
+								}
+							}
 							te.setVal(x, te.tagField(te.visible(fk), fk))
-							te.setVal(x, te.tagField(te.get(a.X), fk)) // the struct value as a whole is tainted (parser results)
+							if wholeStructTaint(a.X.Type()) {
+								te.setVal(x, te.tagField(te.get(a.X), fk)) // the struct value as a whole is tainted (parser results)
+							}
 						}
 					case *ssa.IndexAddr:
 						te.setVal(x, te.get(a.X))
@@ -475,7 +483,9 @@ func (te *taintEngine) transferFunc(fn *ssa.Function) {
 			case *ssa.Field:
 				if fk, ok := structFieldKey(x.X, x.Field); ok {
 					te.setVal(x, te.tagField(te.visible(fk), fk))
-					te.setVal(x, te.tagField(te.get(x.X), fk))
+					if wholeStructTaint(x.X.Type()) {
+						te.setVal(x, te.tagField(te.get(x.X), fk))
+					}
 				}
 				// a struct value copied out of a tainted container
 			case *ssa.Index:
@@ -1026,4 +1036,18 @@ func guardedEqualToConst(v ssa.Value, b *ssa.BasicBlock) bool {
 		}
 	}
 	return false
+}
+
+// wholeStructTaint: the nodes the generated path parser builds (package internal/parser/path) are made of the text the
+// parser was given, so reading any field of a tainted node yields tainted text even though no store into that field is
+// visible (the fields are filled by generated code). Other structs are tracked field by field.
+func wholeStructTaint(t types.Type) bool {
+	if pt, ok := t.Underlying().(*types.Pointer); ok {
+		t = pt.Elem()
+	}
+	nt, ok := t.(*types.Named)
+	if !ok || nt.Obj().Pkg() == nil {
+		return false
+	}
+	return strings.HasSuffix(nt.Obj().Pkg().Path(), "/internal/parser/path")
 }
